@@ -48,11 +48,23 @@ def _snapshot(root):
 
 
 def _kind(name):
-    base = os.path.basename(name)
+    """File kind for signatures: world-specific names reduced to the extension, fixed names kept, and the structural
+    directory (`gen/`, `interface/`, `world/`) kept so that e.g. MoonBit's top-level gen/ffi.mbt (export glue) and the
+    per-interface ffi.mbt (builtins) are different findings."""
+    parts = name.replace("\\", "/").split("/")
+    base = parts[-1]
     ext = os.path.splitext(base)[1] or base
-    if base in ("moon.pkg.json", "moon.mod.json", "wit.h", "go.mod", "ffi.mbt", "top.mbt"):
-        return base
-    return ext
+    k = base if base in ("moon.pkg.json", "moon.mod.json", "wit.h", "go.mod", "ffi.mbt", "top.mbt", "README.md") else ext
+    if ".wit.Imports." in base or ".wit.imports." in base:
+        k = "imports" + ext      # C# per-interface files
+    elif ".wit.Exports." in base or ".wit.exports." in base:
+        k = "exports" + ext
+    for seg in parts[:-1]:
+        if seg in ("interface", "world"):
+            return seg + "/" + k
+    if len(parts) == 2 and parts[0] in ("gen",):
+        return parts[0] + "/" + k
+    return k
 
 
 def _first_diff(a, b):
@@ -142,7 +154,7 @@ def _run_case(case, work, nproc_runs):
         m2 = re.search(r'failed to read "([^"]*)"', se)
         if m:
             # the checking process is one more generation whose bytes differ from the first one's
-            res["violations"].append(("%s:nondeterministic:%s" % (case["backend"], _kind(m.group(1).strip())),
+            res["violations"].append(("%s:nondeterministic:%s" % (case["backend"], _kind(os.path.relpath(m.group(1).strip(), out))),
                                       "`--check` right after generating into the same directory reports %s" % m.group(0)[:300]))
             shutil.rmtree(work, ignore_errors=True)
             return res
